@@ -1,31 +1,138 @@
-"""Replay files: every reported violation names its obligation and carries CBMC's output."""
+"""Replay files: every reported violation names its obligation and carries CBMC's output; where the
+counterexample can be turned into concrete inputs it is re-executed natively against the real code
+(replay/replay.c: clang ASan+UBSan, exact-size heap objects, oracle = executable specification)."""
 import json
 import os
 import re
+import subprocess
 
 from . import core
+
+DRIVER_SRC = os.path.join(core.VERIF, "replay", "replay.c")
+
+
+def build_driver():
+    d = os.path.join(core.WORK, "replay")
+    os.makedirs(d, exist_ok=True)
+    exe = os.path.join(d, "replay")
+    cmd = ["clang", "-g", "-O1", "-fsanitize=address,undefined", "-fno-sanitize-recover=all",
+           "-DBINSON_PARSER_WITH_PRINT", "-I" + os.path.join(core.REPO, "include"), "-I" + os.path.join(core.REPO, "src"),
+           "-I" + os.path.join(core.VERIF, "spec"), DRIVER_SRC, "-o", exe]
+    r = subprocess.run(cmd, capture_output=True, text=True, timeout=300)
+    if r.returncode != 0:
+        return None, r.stderr[-2000:]
+    return exe, ""
+
+
+def _defs(job):
+    d = {}
+    for x in job.defs:
+        if "=" in x:
+            k, v = x.split("=", 1)
+            d[k] = v
+        else:
+            d[x] = "1"
+    return d
+
+
+def _trace_array(trace, name, n):
+    vals = {}
+    for t in trace or []:
+        m = re.match(r"^%s\[(\d+)l?\]$" % re.escape(name), t.get("lhs") or "")
+        if m and t.get("bin"):
+            vals[int(m.group(1))] = int(t["bin"].replace(" ", ""), 2) & 0xFF
+        elif m and t.get("value") is not None:
+            try:
+                vals[int(m.group(1))] = int(str(t["value"]).rstrip("ul")) & 0xFF
+            except ValueError:
+                pass
+    if len(vals) < n:
+        return None
+    return bytes(vals[i] for i in range(n))
+
+
+def scenario_from(job, o):
+    """Turn a CBMC counterexample of a known harness family into a replay scenario (text), or None."""
+    d = _defs(job)
+    tr = o.get("trace") or []
+    if job.harness.endswith("h_verify_ref.c") or job.harness.endswith("h_nav.c"):
+        n = int(d.get("VC_N", "0"))
+        if "VC_DOC" in d:
+            buf = bytes(int(x, 16) for x in d["VC_DOC"].split(","))
+        else:
+            buf = _trace_array(tr, "vc_wit", n)
+        if buf is None:
+            return None
+        root = "array" if d.get("VC_ROOT_ARRAY") == "1" else "object"
+        lines = ["root " + root, "max_depth " + d.get("VC_MD", "3"), "prefill ab", "buffer " + buf.hex()]
+        if job.harness.endswith("h_verify_ref.c"):
+            return "\n".join(["kind verify"] + lines) + "\n"
+        inv = {1: "E", 2: "N", 3: "O", 4: "A", 5: "o", 6: "a", 7: "R", 8: "F", 9: "G", 10: "H"}
+        seq = "".join(inv.get(int(d.get("VC_S%d" % i, "0")), "") for i in range(8))
+        nm = _trace_array(tr, "nm", 2) or b"ab"
+        return "\n".join(["kind parser_seq"] + lines + ["calls " + seq, "name_a %02x" % nm[0], "name_b %02x" % nm[1]]) + "\n"
+    return None
 
 
 def write_and_replay(pid, name, job, o, r):
     d = os.path.join(core.VERIF, "replay", "out")
     os.makedirs(d, exist_ok=True)
-    fn = re.sub(r"[^A-Za-z0-9_.-]", "_", name)[:150] + ".json"
-    path = os.path.join(d, fn)
+    base = re.sub(r"[^A-Za-z0-9_.-]", "_", name)[:150]
+    path = os.path.join(d, base + ".json")
     rec = {"property": pid, "obligation": name, "engine": job.engine, "job": job.name,
            "cbmc_property_id": o.get("id"), "description": o.get("desc"),
            "source": {"file": o.get("file"), "function": o.get("function"), "line": o.get("line")},
            "found_by": "cbmc-trace" if o.get("trace") else "none",
-           "cbmc_cmd": r.get("cbmc_cmd"), "cbmc_trace": o.get("trace", []),
+           "cbmc_cmd": r.get("cbmc_cmd"), "defs": job.defs, "cbmc_trace": (o.get("trace") or [])[-120:],
            "cbmc_output_tail": r.get("messages_tail", "")}
     found = False
     rec["native_replay"] = {"attempted": False}
+    scen = None
+    try:
+        scen = scenario_from(job, o)
+    except Exception as e:
+        rec["native_replay"] = {"attempted": False, "error": repr(e)}
+    if scen:
+        sp = os.path.join(d, base + ".scenario")
+        with open(sp, "w") as f:
+            f.write(scen)
+        rec["scenario_file"] = sp
+        rec["scenario"] = scen
+        rc, out = run_scenario(sp)
+        rec["native_replay"] = {"attempted": True, "rc": rc, "output_tail": out[-3000:]}
+        found = rc not in (0, None, 2)
     with open(path, "w") as f:
         json.dump(rec, f, indent=1)
     return path, found
 
 
+def run_scenario(sp):
+    exe, err = build_driver()
+    if not exe:
+        return None, "replay driver does not build: " + err
+    env = dict(os.environ, ASAN_OPTIONS="detect_leaks=0:abort_on_error=0")
+    try:
+        r = subprocess.run([exe, sp], capture_output=True, text=True, timeout=120, env=env)
+        return r.returncode, (r.stdout or "") + (r.stderr or "")[-2000:]
+    except subprocess.TimeoutExpired:
+        return 124, "native replay timed out (possible non-termination)"
+
+
 def replay_file(path):
+    """./check --replay <file>: re-run the native replay of a recorded violation against /repo's current tree."""
     with open(path) as f:
         rec = json.load(f)
-    print(json.dumps({k: rec[k] for k in ("property", "obligation", "description", "source")}, indent=1))
+    print("property   :", rec.get("property"))
+    print("obligation :", rec.get("obligation"))
+    print("description:", rec.get("description"))
+    print("source     :", rec.get("source"))
+    if rec.get("scenario"):
+        sp = path[:-5] + ".scenario" if path.endswith(".json") else path + ".scenario"
+        with open(sp, "w") as f:
+            f.write(rec["scenario"])
+        rc, out = run_scenario(sp)
+        print(out[-3000:])
+        return 1 if rc not in (0, None, 2) else 0
+    print("no concrete input recorded for this obligation (no-failing-input-found); CBMC output:")
+    print((rec.get("cbmc_output_tail") or "")[-1500:])
     return 0
